@@ -269,6 +269,37 @@ def run(report):
             report.failure("c04-readme-example:%s" % e.split("(")[0], "%s evaluates to %r, the README says %r" % (e, got, want),
                            {"justfile": "x := %s\n" % e, "argv": ["--evaluate", "x"], "observed": got, "readme": want})
     report.coverage["readme_examples"] = len(README_EXAMPLES)
+    # clean(): every path text over {a, b, ., /} up to a length bound, against Just.Path.cleanFn, and against the
+    # statement that a cleaned path has nothing left to clean
+    kmax = 6 if tier == "quick" else 8
+    ptexts = ["".join(x) for k in range(0, kmax + 1) for x in _it.product(["a", ".", "/", "b"], repeat=k)]
+    if tier == "quick":
+        prng = C.case_rng(report.seed, 0, "c04-clean")
+        ptexts = [t for t in ptexts if len(t) <= 5] + prng.sample([t for t in ptexts if len(t) == 6], 1500)
+
+    def eval_clean(chunk):
+        with C.scratch("c04p") as d:
+            open(os.path.join(d, "justfile"), "w").write("".join("v%d := clean('%s')\nw%d := clean(v%d)\n" % (i, t, i, i) for i, t in enumerate(chunk)))
+            pe = subprocess.run([C.JUST, "--evaluate"], cwd=d, env=dict(C.BASE_ENV), stdin=subprocess.DEVNULL, stdout=subprocess.PIPE, stderr=subprocess.PIPE)
+            vals = dict(re.findall(r'^([vw]\d+) +:= "(.*)"$', pe.stdout.decode("utf-8", "replace"), re.M))
+            return [(vals.get("v%d" % i), vals.get("w%d" % i)) for i in range(len(chunk))]
+
+    chunks = [ptexts[i:i + 400] for i in range(0, len(ptexts), 400)]
+    got = [x for ch in C.pmap(eval_clean, chunks) for x in ch]
+    pm = drv.pbatch([{"op": "clean", "p": t} for t in ptexts], chunk=5000)
+    for t, (v, w), m in zip(ptexts, got, pm):
+        if v is None or w is None:
+            report.failure("c04-clean-run", "clean(%r) did not evaluate" % t, {"justfile": "x := clean('%s')\n" % t, "argv": ["--evaluate", "x"]})
+            break
+        if w != v:
+            report.failure("c04-clean-not-idempotent", "clean(%r) = %r can be cleaned further to %r" % (t, v, w),
+                           {"justfile": "x := clean(clean('%s'))\n" % t, "argv": ["--evaluate", "x"], "observed": [v, w]})
+            break
+        if m["clean"] != v:
+            report.failure("c04-model-clean", "Just.Path.cleanFn and clean() disagree on %r: model %r, implementation %r" % (t, m["clean"], v),
+                           {"correspondence": "C04 clean() vs Just.Path.cleanFn", "path": t, "model": m["clean"], "impl": v}, no_input=True)
+            break
+    report.coverage["clean_paths"] = len(ptexts)
     # the same programs written in a second textual order: values must not depend on it
     cases2 = []
     for (assigns, overrides, text_order, plan, use_set) in cases[: n // 4]:
